@@ -500,6 +500,16 @@ func (c *Cursor) Filter(ctx context.Context, idxStr string, val []interface{}) e
 	} else {
 		if c.max != nil {
 			err = c.cursor.Ceil(ctx, c.max)
+			if err == nil {
+				if _, _, ok := c.cursor.Get(); !ok {
+					// no key at or above the bound: every key is below it, so the
+					// scan starts from the largest key
+					c.cursor, err = c.t.Tree.Root.Cursor(ctx)
+					if err == nil {
+						err = c.cursor.Max(ctx)
+					}
+				}
+			}
 		} else {
 			err = c.cursor.Max(ctx)
 		}
